@@ -26,3 +26,15 @@ Proof. exact shutdown_at_most_once. Qed.
 
 Example C15_ex : first_shutdown [SdPend; SdErr KBrokenPipe] = DROk /\ first_shutdown [SdErr (KOther 1)] = DRErr (KOther 1).
 Proof. split; reflexivity. Qed.
+
+(* a disconnect whose future is DROPPED while the transport's shutdown is still pending (a timeout around disconnect()): the
+   transport had been taken out before the first suspension point, so the client is inert all the same -- later calls fail with
+   NotConnected without writing (C15_inert), later disconnects do not touch the transport (C15_disconnect_again) -- and no
+   completed shutdown is counted for it.  With an unlimited budget this is the plain disconnect. *)
+Theorem C15_abandoned_disconnect_leaves_client_inert : forall st bg,
+  framed (snd (disconnect_bg st bg)) = false
+  /\ wio_ (snd (disconnect_bg st bg)) = wio_ st /\ rq (snd (disconnect_bg st bg)) = rq st
+  /\ (shutdowns (snd (disconnect_bg st bg)) = shutdowns st \/ shutdowns (snd (disconnect_bg st bg)) = shutdowns st + 1).
+Proof. exact disconnect_bg_inert. Qed.
+Theorem C15_disconnect_bg_is_disconnect : forall st, disconnect_bg st None = disconnect st.
+Proof. exact disconnect_bg_none. Qed.
